@@ -2,7 +2,7 @@ import Secp.Gen.GroupAPI
 import Secp.Proofs.XmdTies
 import Secp.Proofs.XmdLength
 import Secp.Proofs.ElementApiTies
-import Secp.Proofs.BytesTies
+import Secp.Proofs.BytesTiesNH
 /-!
 # The regenerated `HashToScalar`, `HashToGroup`, `EncodeToGroup` (`GenGroup`) equal the model `Hand.Group`
 for every hash function with 32-byte digests, every message and every DST (the empty one included: both sides are `none`).
